@@ -179,6 +179,19 @@ def walk_rules(facts, rep, w, D):
                 pushes.append((cb, s, tr))
             if sname(s.path) == "read_dir" and s.self_ty and s.self_ty.endswith("VfsPath"):
                 readdirs.append((cb, s, tr))
+    # the stack of pending directories loses an element only by being popped for listing: clearing / truncating it (on an
+    # error, say) drops directories that were yielded but never walked
+    dropping = []
+    for cb in inter.code_bodies(nb):
+        tr_ = get_tracer(facts, cb)
+        for s in inter.sites(cb):
+            if s.short.split("::")[0] in ("Vec", "VecDeque") and s.short.split("::")[-1] in (
+                    "clear", "truncate", "drain", "retain", "split_off", "remove", "swap_remove", "dedup", "pop_front", "pop_back") and s.args and \
+                    any(y[0] == "field" and y[2] == "todo" for y in walk(norm(tr_.operand(s.args[0])))):
+                dropping.append(s.short)
+    n += 1
+    rep.ob("R05.3", nb.id, "pending directories leave the stack only by pop", not dropping, "" if not dropping else
+           "the walk calls %s on its stack of pending directories: directories already yielded are never listed" % ", ".join(sorted(set(dropping))), nb.span)
     n += 2
     rep.ob("R05.3", nb.id, "one push onto the directory stack", len(pushes) == 1, "%d" % len(pushes), nb.span)
     rep.ob("R05.3", nb.id, "one read_dir of a stacked directory", len(readdirs) == 1, "%d" % len(readdirs), nb.span)
@@ -333,6 +346,10 @@ def run(facts, rep, tier, ctx):
     c09.resolver_rules(facts, rep, ws, "R05.5r")
     c07.delegation(facts, rep, ws, "R05.5a", D)
     c07.gate_rules(facts, _P5(rep, "R05.5a"), ws, D)
+    # what the overlay hides stays hidden consistently: only the removal / re-creation protocol touches markers (deleting the
+    # markers of a removed directory's former entries makes those entries exist again under a parent that does not)
+    from . import c10 as _c10
+    _c10.marker_rules(facts, rep, ws, prefix="R05.5m", only=("R10.5",))
     # "a file iff it can be read": the overlay opens what its resolver found (the entry metadata/read_dir describe), not the
     # first layer that happens to hold a file of that name
     from . import c04 as _c04
@@ -386,6 +403,7 @@ def run(facts, rep, tier, ctx):
         k += c07.delegation(facts, A, wa, "R05.5a", D)
         c07.gate_rules(facts, _P5(A, "R05.5a"), wa, D)
         _c04.overlay_read_delegation(facts, _P5(A, "R05.5o"), wa)
+        _c10.marker_rules(facts, A, wa, prefix="R05.5m", only=("R10.5",))
         _PRules(facts, wa, D).generic_routes(_P5(A, "R05.5g"), "G")
         k += physrules.table_o_shape(facts, A, "R05.6p", wa)
         scratch = Report("xa")
